@@ -57,7 +57,7 @@ def addLoop : List Int → List (Nat × Int) → List Int → List Int × List I
   | bins, [], acc => (bins, acc.reverse, none)
   | bins, (idx, v) :: rest, acc =>
       if Gen.cmsAddClampCmp.evalInt v Gen.int32Max then addLoop (bins.set idx Gen.int32Max) rest (Gen.int32Max :: acc)
-      else if v < Gen.int32Min then (bins, acc.reverse ++ (v :: rest.map (·.2)), some .overflow)
+      else if v < -2147483648 then (bins, acc.reverse ++ (v :: rest.map (·.2)), some .overflow)  -- array('i') range
       else addLoop (bins.set idx v) rest (v :: acc)
 
 def clampTotal (t : Int) : Int :=
@@ -83,7 +83,7 @@ def removeLoop : List Int → List (Nat × Int) → List Int → List Int × Lis
   | bins, [], acc => (bins, acc.reverse, none)
   | bins, (idx, v) :: rest, acc =>
       if Gen.cmsRemoveKeepCmp.evalInt v Gen.int32Min then
-        if v > Gen.int32Max then (bins, acc.reverse ++ (v :: rest.map (·.2)), some .overflow)
+        if v > 2147483647 then (bins, acc.reverse ++ (v :: rest.map (·.2)), some .overflow)  -- array('i') range
         else removeLoop (bins.set idx v) rest (v :: acc)
       else removeLoop (bins.set idx Gen.int32Min) rest (Gen.int32Min :: acc)
 
